@@ -407,7 +407,7 @@ class C19(Prop):
         import os
         scale = float(os.environ.get("VERIF_C19_SCALE", "1"))     # development aid (mutation campaigns); 1 in normal runs
         # time budget of the harness watchdog for timed-out / slow cases (see h_containers.c); inherited by the harness process
-        os.environ["C19_TIME_BUDGET"] = "150" if quick else "1500"
+        os.environ["C19_TIME_BUDGET"] = "600" if quick else "3000"
 
         heavy = []
 
